@@ -120,10 +120,16 @@ func genPairScenarios(tier string) []*Scenario {
 	} {
 		ops := [][]string{c("GET", k), c("SET", k, "w"), c("SETNX", k, "n"), c("APPEND", k, "x"), c("INCR", k), c("EXISTS", k), c("TTL", k), c("TYPE", k), c("DEL", k), c("EXPIRE", k, "100"), c("PERSIST", k),
 			c("RENAME", k, kk), c("RENAME", kk, k), c("LPUSH", k, "x"), c("LPUSHX", k, "y"), c("LLEN", k), c("LPOP", k), c("KEYS", "*"), c("SET", k, "w", "KEEPTTL"), c("SADD", k, "m"),
-			c("SETEX", k, "100", "e"), c("SET", k, "f", "EX", "100")}
+			c("SETEX", k, "100", "e"), c("SET", k, "f", "EX", "100"),
+			// commands on another key of the same lock stripe: they hold the stripe's lock while the
+			// command on the expired key goes through its lazy-expiry step
+			c("GET", k1), c("SET", k1, "x")}
 		for i := 0; i < len(ops); i++ {
 			for j := i; j < len(ops); j++ {
 				a, b := ops[i], ops[j]
+				if (a[1] == k1 && b[1] == k1) || (a[0] == "KEYS" && b[1] == k1) {
+					continue // (KEYS over two keys of one shard map visits them in Go's random map order)
+				}
 				if (a[0] == "KEYS" && b[0] == "RENAME") || (a[0] == "RENAME" && b[0] == "KEYS") {
 					continue // KEYS is not claimed atomic against a command that moves a key between shards
 				}
